@@ -161,6 +161,42 @@ def check_on_missing(res, runner_name):
         res.fail(kind="oracle", function="_handle_missing_outputs", what=f"on_missing='error' did not raise ValueError: {o_err}", runner=runner_name, replay=rep)
 
 
+def check_entry_below_gate(variant, res, runner_name):
+    """Entry point on (or below) a gate's target: the gate is UPSTREAM of the entry point, so it must not execute, whatever
+    it would decide and although all its inputs are available."""
+    from hypergraph import Graph, ifelse, route
+    set_case("C16", {"part": "entry_gate", "variant": variant}, runner_name)
+    run = run_sync if runner_name == "sync" else run_async
+    rep = {"harness": "C16", "spec": {"part": "entry_gate", "variant": variant}, "runner": runner_name}
+    log = Log()
+    kind, entry = variant["gate"], variant["entry"]
+
+    if kind == "ifelse":
+        @ifelse(when_true="fast", when_false="slow")
+        def gate(score=100):
+            log.calls.append(("gate", {"score": score}))
+            return score < 10
+    else:
+        @route(targets=["fast", "slow"])
+        def gate(score=100):
+            log.calls.append(("gate", {"score": score}))
+            return "slow"
+    nodes = [tagged_node("assess", ["doc"], ["score"], log, {"doc": "d"}), gate, tagged_node("fast", ["text"], ["fast_out"], log), tagged_node("slow", ["text"], ["slow_out"], log),
+             tagged_node("publish", ["fast_out"], ["report"], log), tagged_node("archive", ["slow_out"], ["stored"], log)]
+    g = Graph(nodes).with_entrypoint(entry)
+    allowed = {"fast": {"fast", "publish"}, "slow": {"slow", "archive"}, "publish": {"publish"}}[entry]
+    vals = {"text": "t"} if entry in ("fast", "slow") else {"fast_out": "f"}
+    for extra in ({}, {"score": 3}):
+        log.clear()
+        out = run(g, {**vals, **extra})
+        ran = {n for n, _ in log.calls}
+        res.case(repr((variant, runner_name, sorted(extra))), nontrivial=True, sample={"variant": variant, "ran": sorted(ran), "outcome": out})
+        if not ran <= allowed:
+            res.fail(kind="oracle", function="compute_active_node_set / _active_from_entrypoints", what=f"entry point {entry} below a {kind} gate (caller values {sorted({**vals, **extra})}): nodes {sorted(ran - allowed)} executed although they are not downstream of the entry point", runner=runner_name, replay=rep)
+        if out["status"] == "completed" and not ran:
+            res.fail(kind="oracle", function="compute_active_node_set / get_ready_nodes", what=f"entry point {entry} below a {kind} gate: the entry node itself did not run ({out})", runner=runner_name, replay=rep)
+
+
 def run(tier, seed, functions):
     n = 80 if tier == "quick" else 1500
     res = Result("C16", "random DAGs (some nodes emitting ordering signals) x every node as entry point (with and without a prior run of the base graph; upstream values supplied by the caller and "
@@ -180,12 +216,19 @@ def run(tier, seed, functions):
             check_selection(spec, res, r)
     check_on_missing(res, "sync")
     check_on_missing(res, "async")
+    for gate in ("ifelse", "route"):
+        for entry in ("fast", "slow", "publish"):
+            for r in ("sync", "async"):
+                check_entry_below_gate({"gate": gate, "entry": entry}, res, r)
     return res
 
 
 def replay(rep):
     res = Result("C16", "", {})
     sp = rep["spec"]
+    if sp["part"] == "entry_gate":
+        check_entry_below_gate(sp["variant"], res, rep["runner"])
+        return [f["what"] for f in res.failures]
     if sp["part"] == "entry":
         check_entrypoint(sp["spec"], res, rep["runner"], sp["prior_run"])
     elif sp["part"] == "select":
